@@ -462,7 +462,6 @@ def pack2d(RVARA, verbose=False):
     FLOAT = np.float32
     INT = np.int32
     # ABS = np.abs
-    LOG = np.log
     NY, NX = RVARA.shape
     CVAR = np.zeros(RVARA.shape, dtype='uint8')
     RVAR = RVARA.astype('f')
@@ -488,15 +487,15 @@ def pack2d(RVARA, verbose=False):
     RMAX = np.maximum(colmax, rowmax)
     # END NUMPY VECTOR CODE
 
-    SEXP = 0.0
-    # compute the required scaling exponent
+    # compute the required scaling exponent: the power of two above RMAX
+    # (floor(log2(RMAX)) + 1, and 1 for a constant field). It is taken from
+    # the binary exponent because the float32 quotient LOG(RMAX) / LOG(2.)
+    # lands on the wrong side of a whole number at some exact powers of two
+    # (e.g. 2**15, 2**-13), which made NEXP one too small
     if RMAX != 0.0:
-        SEXP = LOG(RMAX) / LOG(np.float32(2.))
-
-    NEXP = INT(SEXP)
-    # positive or whole number scaling round up for lower precision
-    if SEXP >= 0.0 or (SEXP % 1.0) == 0.0:
-        NEXP = NEXP + 1
+        NEXP = INT(np.frexp(RMAX)[1])
+    else:
+        NEXP = INT(1)
     # precision range is -127 to 127 or 254
     PREC = np.float32((2.0**NEXP) / 254.0)
     SCEXP = np.float32(2.0**(7 - NEXP))
